@@ -61,7 +61,22 @@ def gen_case(rng, tier):
             searches.append((0, R, fk, fa, fb, qv))
     for K, R, fk, fa, fb, qv in searches:
         c.search(K, R, True, fk, fa, fb, qv)
-    return c, searches
+    phases = [searches]
+    c.docs_at_phase1 = dict(c.docs)
+    if c.docs and rng.random() < 0.6:
+        # second phase: the id set changes while the number of documents stays the same (one removed, one new), then
+        # the collection is searched again: an answer may never depend on an earlier search
+        gone = rng.choice(sorted(c.docs))
+        c.rm(gone)
+        new_id = rng.choice([777, 2 ** 63 + 5, 4242])
+        nv = rand_vec(rng, dim, q)
+        c.add(new_id, nv, b'new')
+        c.cmds.append('docs')
+        s2 = [(1, 0.0, 0, 1, 0, list(nv)), (max(1, len(c.docs)), 0.0, 0, 1, 0, rand_vec(rng, dim, 64)), (0, 3.0 if metric == 0 else 1.0, 0, 1, 0, rand_vec(rng, dim, 64))]
+        for K, R, fk, fa, fb, qv in s2:
+            c.search(K, R, True, fk, fa, fb, qv)
+        phases.append(s2)
+    return c, phases
 
 
 def brute(c, docs_stored, K, R, fk, fa, fb, qv, rows, pct):
@@ -137,17 +152,38 @@ def check(tier, seed, replay=None):
                               'commands': c.cmds, 'signature': 'search:died'}):
                 nviol += 1
             continue
-        di = lines.index('enddocs')
-        dl = [l for l in lines[:di] if l.startswith('doc ')]
-        docs_stored = {}
-        for l in dl:
-            f = l.split()
-            id_ = int(f[1])
-            docs_stored[id_] = ([unbits(int(x)) for x in f[3:]], int(f[2]), c.docs.get(id_, (None, b''))[1])
-        if not docs_stored:
+        # phases: documents dump, then searches; a second phase after the id set changed
+        phases = searches
+        segs, cur = [], []
+        for l in lines:
+            if l == 'enddocs':
+                segs.append([cur, []])
+                cur = []
+            elif segs and l.startswith('res '):
+                segs[-1][1].append(l)
+            else:
+                cur.append(l)
+        work = []
+        for (doclines, reslines), ss in zip(segs, phases):
+            ds = {}
+            for l in doclines:
+                if l.startswith('doc '):
+                    f = l.split()
+                    id_ = int(f[1])
+                    ds[id_] = ([unbits(int(x)) for x in f[3:]], int(f[2]), None)
+            work.append((ds, ss, reslines))
+        # metadata as known to the history at the end (phase 1 documents that were removed later keep theirs from the dump hash only)
+        if not work or not work[0][0]:
             stats['empty_collections'] += 1
-        res_lines = [l for l in lines[di + 1:] if l.startswith('res ')]
-        for (K, R, fk, fa, fb, qv), rl in zip(searches, res_lines):
+        flat = []
+        for pi, (ds, ss, reslines) in enumerate(work):
+            for id_ in ds:
+                md = (c.docs_at_phase1 if pi == 0 else c.docs).get(id_, (None, b''))[1]
+                ds[id_] = (ds[id_][0], ds[id_][1], md)
+            for s_, rl in zip(ss, reslines):
+                flat.append((ds, s_, rl))
+        docs_stored = work[0][0] if work else {}
+        for docs_stored, (K, R, fk, fa, fb, qv), rl in flat:
             pct, rows = parse_res(rl)
             stats['searches'] += 1
             stats['knn' if R == 0 else 'radius'] += 1
